@@ -54,7 +54,7 @@ HISTORY = {
     "C19-4": "same idea as C19-2 (second agent): caught as built after round 1",
     "C01-5": "same idea as C01-4 (third agent): caught with a failing input by the mirror-rebuild oracle",
     "C01-6": "C01 itself stays silent (its harness keeps the transformation fixed and the weights are taken from the logged energies); caught by C02 (logdet / reference-energy oracles), whose statement it breaks directly",
-    "C02-5": "missed at first (no low-rank update was ever rejected): full low-rank updates between draws, half of them with a non-finite eigenvalue that must be rejected as a whole",
+    "C02-5": "missed at first (no low-rank update was ever rejected): full low-rank updates between draws, half of them with a non-finite eigenvalue that must be rejected as a whole; patch re-created after fix c9d2473, see C02-11",
     "C03-6": "caught by C02 (kinetic-energy oracle); the same energy oracles were then added to the returned state in C03",
     "C04-5": "C04 itself stays silent (partial claim); caught by C02 (forward/backward oracle)",
     "C05-5": "caught by the tie in C05 and with a failing input by C07 (NaN acceptance statistic)",
@@ -85,14 +85,22 @@ HISTORY = {
     "C16-10": "fifth round: caught as built",
     "C18-10": "fifth round: missed at first (step sizes, lengths and subsample frequencies were such that f*round(L/eps) and round(f*L/eps) agreed): non-dyadic values added",
     "C14-8": "missed by C14 at first (its cases never flushed in the middle of a run; C15 caught it): flushes at random steps added to the C14 cases",
-    "C08-11": "would have been missed before the sixth round (the low-rank estimator was never fed a degenerate window): caught with a failing input by the direct-drive tie added in that round (const_draw0 window leaves std 0 / inverse inf in use)",
+    "C08-11": "would have been missed before the sixth round (the low-rank estimator was never fed a degenerate window): caught with a failing input by the direct-drive tie added in that round (const_draw0 window leaves std 0 / inverse inf in use). It needs two sites (the guard in rescale_points and the finite-only gate of update); the repair c9d2473 of a genuine defect found later closed the second site, so on the current tree the change no longer breaks the property and the check reports only the broken rescale_points tie (no-failing-input-found), as it should",
     "C08-12": "caught by C02's logdet oracle as built; C08 reports it through the new model tie of LowRankMassMatrix::update (installed parameters)",
-    "C02-11": "same idea as C02-5 (sixth-round agent): caught as built by C02, and by C08's new direct calls of update (id did not move but the parameters did)",
+    "C02-11": "same idea as C02-5 (sixth-round agent): caught as built by C02, and by C08's new direct calls of update (id did not move but the parameters did); patch re-created after fix c9d2473 (same function): missed by C02 then, because its rejected updates only used a NaN eigenvalue, which the new positivity gate refuses earlier - rejected updates now carry NaN / +inf / zero / negative eigenvalues and NaN / infinite eigenvector entries",
     "C02-12": "caught as built (forward/backward oracle on a rank-0 low-rank update with a non-zero translation)",
     "C05-11": "caught as built (+inf log-density in the fault sweep)",
     "C05-12": "caught as built (unrecoverable error inside the re-initialisation search)",
     "C16-11": "caught as built (event statistic present although the event did not happen)",
     "C16-12": "missed at first (no case of C16 retained eigenvalues: diagonal targets only): strongly correlated Gaussians added for the low-rank presets with store_mass_matrix, with a coverage obligation that stored eigenvalues with a low-rank part were seen",
+    "C09-11": "caught as built (switch although the next window does not fit: schedule oracle), C06 sees the state difference",
+    "C09-12": "caught as built by the schedule-state tie (the low-rank estimator keeps its old foreground at a switch with fewer than 3 background draws)",
+    "C14-11": "caught as built (CSV columns of a non-square matrix re-parsed against the recorded values)",
+    "C14-12": "caught as built (inspect with a chain that has stored nothing: chain missing in the Arrow trace)",
+    "C15-11": "caught as built (async flush at a chunk boundary with store latency: flushed row reads as fill value)",
+    "C15-12": "caught as built (partial string chunk written at the wrong offset), also by C14's read-back",
+    "C19-11": "caught as built (trajectory_kind = Microcanonical does not survive the round trip)",
+    "C19-12": "caught as built (seed above 2^53 rounded through f64)",
 }
 
 
